@@ -6,6 +6,7 @@ import Mercure.Model.Publish
 import Mercure.Model.Subscribe
 import Mercure.Model.Hub
 import Mercure.Model.Retention
+import Mercure.Model.BoltStore
 import Mercure.Model.Sys
 import Mercure.Model.Timed
 import Mercure.Model.Config
@@ -58,6 +59,9 @@ structure DSt where
   sys    : Sys.Sys := Sys.Sys.init Sys.Flags.found .bolt 0 [] []
   ret    : RSt := {}
   retSize : Nat := 0
+  bs      : BoltStore.St := {}
+  bsSize  : Nat := 0
+  bsDebug : Bool := false
 
 def sfTest (st : DSt) (label : Nat) (key : Str) : Bool :=
   match st.sfSubs.get? label with
@@ -106,6 +110,18 @@ def showDoc (d : Subscription) : String :=
 
 def showApi (r : ApiResp) : String :=
   s!"{r.status} last={hex r.lastEventID} docs={";".intercalate (r.docs.map showDoc)}"
+
+
+/-! raw byte strings (Bolt keys are not valid UTF-8) -/
+def hexRaw (bs : List UInt8) : String :=
+  String.ofList (bs.flatMap (fun b => [hexDigit (b.toNat / 16), hexDigit (b.toNat % 16)]))
+
+def showUpdFull (u : Update) : String :=
+  s!"{hex u.id}/{hexList u.topics}/{showBool u.priv}/{hex u.data}/{hex u.type}/{u.retry}"
+
+def showRespBytes : Option (List UInt8) → String
+  | none => "~"
+  | some bs => "=" ++ hexRaw bs
 
 namespace SysShow
 open Mercure.Sys
@@ -275,6 +291,11 @@ def step (st : DSt) (line : String) : DSt × String :=
     match size.toNat? with
     | some sz => ({ st with ret := {}, retSize := sz }, "ok")
     | none => (st, "bad-op")
+  | ["ret.resize", size] =>
+    -- the hub restarted on the same file with another retention size
+    match size.toNat? with
+    | some sz => ({ st with retSize := sz }, "ok")
+    | none => (st, "bad-op")
   | ["ret.pub", id, observed] =>
     -- acceptor mode: the cleanup coin is the runtime's; the observed key set must be one of the two outcomes
     match unhex id with
@@ -286,6 +307,54 @@ def step (st : DSt) (line : String) : DSt × String :=
       if obs == a.db.map (·.1) then ({ st with ret := a }, "ok")
       else if obs == b.db.map (·.1) then ({ st with ret := b }, "ok")
       else (st, s!"bad: cleaned={a.db.map (·.1)} skipped={b.db.map (·.1)}")
+    | none => (st, "bad-op")
+  | ["store.new", size, debug] =>
+    match size.toNat? with
+    | some sz => ({ st with bs := {}, bsSize := sz, bsDebug := bool debug }, "ok")
+    | none => (st, "bad-op")
+  | ["store.pub", id, topics, priv, data, type, retry, keys, lastValue] =>
+    -- acceptor for the cleanup coin only; keys and the new value are compared byte for byte
+    match unhex id, unhexList topics, unhex data, unhex type, retry.toNat? with
+    | some id, some topics, some data, some type, some retry =>
+      let u : Update := { id := id, topics := topics, priv := bool priv, data := data, type := type, retry := retry }
+      let a := BoltStore.persist st.bsSize st.bsDebug st.bs (true, u)
+      let b := BoltStore.persist st.bsSize st.bsDebug st.bs (false, u)
+      let showKeys := fun (s : BoltStore.St) => ",".intercalate (s.bucket.map (fun e => hexRaw e.1))
+      let v := hex (Json.update st.bsDebug u)
+      if v != lastValue then (st, s!"bad-value: model={v}")
+      else if keys == showKeys a then ({ st with bs := a }, "ok")
+      else if keys == showKeys b then ({ st with bs := b }, "ok")
+      else (st, s!"bad-keys: cleaned={showKeys a} skipped={showKeys b}")
+    | _, _, _, _, _ => (st, "bad-op")
+  | ["store.scan", req] =>
+    match unhex req with
+    | some req =>
+      let rq := if req == earliest then none else some (utf8Bytes req)
+      let (resp, vs) := BoltStore.scan rq st.bs.seq st.bs.bucket
+      match BoltStore.decodeAll vs with
+      | some us =>
+        -- the harness's subscriber has selector and claim "*": it matches every update that has a topic;
+        -- an announced id that is the literal "earliest" reads like the "earliest" answer
+        let resp := if resp == some (utf8Bytes earliest) then none else resp
+        (st, s!"{showRespBytes resp}|{";".intercalate ((us.filter (·.topics != [])).map showUpdFull)}")
+      | none => (st, "undecodable")
+    | none => (st, "bad-op")
+  | ["store.last"] =>
+    (st, s!"{st.bs.seq} {showRespBytes (BoltStore.lastEventIdBytes st.bs)}")
+  | ["store.dec", v] =>
+    match unhex v with
+    | some v =>
+      match Json.parseUpdate v with
+      | some (d, u) => (st, s!"{showBool d} {showUpdFull u}")
+      | none => (st, "none")
+    | none => (st, "bad-op")
+  | ["store.str", v] =>
+    -- a JSON string literal on its own (every spelling JSON allows)
+    match unhex v with
+    | some v =>
+      match Json.parseStr v with
+      | some (x, []) => (st, "=" ++ hex x)
+      | _ => (st, "none")
     | none => (st, "bad-op")
   | ["sse.enc", data, id, type, retry] =>
     match unhex data, unhex id, unhex type, retry.toNat? with
